@@ -11,7 +11,7 @@ pub struct C05;
 /// literal, alternative literal of the same kind/shape, mutations (text with `$` = the variable), which alias forms apply
 struct VK { name: &'static str, lit: &'static str, alt: &'static str, muts: &'static [(&'static str, &'static str)], forms: &'static [&'static str] }
 
-const VKS: [VK; 8] = [
+const VKS: [VK; 9] = [
   VK { name: "scalar", lit: "5", alt: "9", muts: &[("assign", "$ = 9"), ("opassign", "$ += 1")], forms: &["ref", "mutref", "bracket", "tuple", "record", "arith", "annot", "set", "nested"] },
   VK { name: "matrix", lit: "[1 2 3]", alt: "[7 8 9]", muts: &[("assign", "$ = [7 8 9]"), ("ixassign", "$[1] = 100"), ("opassign", "$ += 1"), ("rangeassign", "$[1..=2] = 0"), ("ixopassign", "$[[1 2]] += 5")], forms: &["ref", "mutref", "bracket", "tuple", "record", "arith", "slice", "annot", "nested"] },
   VK { name: "matrix2", lit: "[1 2; 3 4]", alt: "[5 6; 7 8]", muts: &[("assign", "$ = [5 6; 7 8]"), ("ixassign", "$[2,1] = 100"), ("rowassign", "$[1,:] = 0"), ("opassign", "$ *= 2")], forms: &["ref", "mutref", "tuple", "record", "arith", "slice", "nested"] },
@@ -19,6 +19,7 @@ const VKS: [VK; 8] = [
   VK { name: "tuple", lit: "(1, 2)", alt: "(7, 8)", muts: &[("assign", "$ = (7, 8)"), ("elemassign", "$.1 = 5")], forms: &["ref", "mutref", "tuple", "record", "nested"] },
   VK { name: "set", lit: "{1, 2, 3}", alt: "{7, 8}", muts: &[("assign", "$ = {7, 8}")], forms: &["ref", "mutref", "tuple", "record"] },
   VK { name: "table", lit: "|a<f64> b<f64>| 1 2 | 3 4 |", alt: "|a<f64> b<f64>| 7 8 | 9 10 |", muts: &[("assign", "$ = |a<f64> b<f64>| 7 8 | 9 10 |"), ("colassign", "$.a = [9; 9]")], forms: &["ref", "mutref", "tuple", "record"] },
+  VK { name: "map", lit: "{\"a\": 10, \"b\": 20}", alt: "{\"c\": 1}", muts: &[("assign", "$ = {\"c\": 1}"), ("keyassign", "${\"a\"} = 99"), ("keyinsert", "${\"z\"} = 5")], forms: &["ref", "mutref", "tuple", "record"] },
   VK { name: "string", lit: "\"hi\"", alt: "\"yo\"", muts: &[("assign", "$ = \"yo\"")], forms: &["ref", "mutref", "bracket", "tuple", "record"] },
 ];
 
@@ -133,9 +134,11 @@ impl Prop for C05 {
           invalid.push(("index-list-partly-out-opassign", format!("b[[1 2 {}]] += 1", n + 1), vec!["b".into()], "err"));
           if vk.name == "matrix2" { invalid.push(("index-2d-partly-out", "b[1,[1 3]] = 0".into(), vec!["b".into()], "err")); invalid.push(("index-2d-rows-partly-out", "b[[1 3],1] = 0".into(), vec!["b".into()], "err")); invalid.push(("index-2d-allrows-partly-out", "b[:,[2 3]] = 0".into(), vec!["b".into()], "err")); }
           invalid.push(("index-out-of-range", "b[99] = 1".into(), vec!["b".into()], "err")); invalid.push(("kind-error", "b[1] = \"s\"".into(), vec!["b".into()], "err")); invalid.push(("opassign-kind-error", "b += \"s\"".into(), vec!["b".into()], "err")); }
-        "record" => { invalid.push(("missing-field", "b.nofield = 1".into(), vec!["b".into()], "err")); }
-        "tuple" => { invalid.push(("tuple-index-out-of-range", "b.9 = 1".into(), vec!["b".into()], "err")); }
-        "table" => { invalid.push(("missing-column", "b.nocol = [1; 2]".into(), vec!["b".into()], "err")); invalid.push(("column-length", "b.a = [1; 2; 3]".into(), vec!["b".into()], "err")); }
+        "record" => { invalid.push(("missing-field", "b.nofield = 1".into(), vec!["b".into()], "err")); invalid.push(("field-kind-error", "b.a = \"s\"".into(), vec!["b".into()], "ok-or-err")); }
+        "tuple" => { invalid.push(("tuple-index-out-of-range", "b.9 = 1".into(), vec!["b".into()], "err")); invalid.push(("tuple-index-zero", "b.0 = 1".into(), vec!["b".into()], "ok-or-err")); }
+        "table" => { invalid.push(("missing-column", "b.nocol = [1; 2]".into(), vec!["b".into()], "err")); invalid.push(("column-length", "b.a = [1; 2; 3]".into(), vec!["b".into()], "err")); invalid.push(("column-kind-error", "b.a = [\"x\"; \"y\"]".into(), vec!["b".into()], "ok-or-err")); }
+        // a map element assignment whose key or value has the wrong kind: whether it is rejected is the implementation's choice, but a rejected one must change nothing
+        "map" => { invalid.push(("map-key-kind", "b{1} = 5".into(), vec!["b".into()], "ok-or-err")); invalid.push(("map-value-kind", "b{\"a\"} = \"s\"".into(), vec!["b".into()], "ok-or-err")); invalid.push(("map-new-key-value-kind", "b{\"zz\"} = \"s\"".into(), vec!["b".into()], "ok-or-err")); invalid.push(("map-key-kind-bool", "b{true} = 5".into(), vec!["b".into()], "ok-or-err")); invalid.push(("map-immutable-key-kind", "a{1} = 5".into(), vec!["a".into()], "err")); }
         _ => {}
       }
       for (i, (iname, src, targets, exp)) in invalid.iter().enumerate() {
